@@ -453,9 +453,69 @@ def call_function(ex, st, fi, recv, pos, kw, node, constructing=False, contract_
         if exact and (exact + "::" + key) in ex.S.contracts:
             c = ex.S.contracts[exact + "::" + key]
     env = bind_params(ex, st, fi, recv, pos, kw, node)
+    if c is not None and c.yields:
+        return make_generator(ex, st, fi, c, env, node)
     if c is not None and not c.inline:
         return apply_contract(ex, st, fi, c, env, node)
     return inline_call(ex, st, fi, env, node)
+
+
+def gen_ghost(kind, param):
+    return f"gen${kind}${param}"
+
+
+def make_generator(ex, st, fi, c, env, node):
+    """calling a generator function under a `yields` contract runs none of its body: it creates a generator object
+    that remembers its arguments (ghost maps gen$<kind>$<param>) and has yielded gen_pos = 0 values; its
+    preconditions are proved here, where the arguments are fixed"""
+    for p, tys in c.types.items():
+        if p in env:
+            env[p] = retype(ex, st, env[p], T(tys))
+    for lab, text in c.requires:
+        ex.oblige(st, "pre-call", f"{c.target}:{lab}", node, spec_eval(ex, st, env, text))
+    g = ex.alloc(st, "GEN")
+    for p, v in env.items():
+        name = gen_ghost(c.gen_kind, p)
+        if name not in ex.S.ghost:
+            raise Unsupported(f"generator parameter {p} has no ghost map {name}", node)
+        ex.heap_set(st, name, z3.Store(ex.heap_get(st, name), g, ex.to_val(v)), fresh_obj=True)
+    ex.heap_set(st, "gen_pos", z3.Store(ex.heap_get(st, "gen_pos"), g, z3.IntVal(0)), fresh_obj=True)
+    sv = SV("ref", g, Ty("gen", name=c.gen_kind), fresh=True)
+    return [(st, sv)]
+
+
+def generator_next(ex, st, g, node):
+    """next(g) for a generator made by make_generator: the gen_pos(g)-th value of the `yields` contract, evaluated with
+    the remembered arguments in the CURRENT heap (a generator reads its list arguments when it is resumed)"""
+    kind = g.h.name
+    key = ex.S.gen_kinds.get(kind)
+    c = ex.S.contracts[key]
+    fi = ex.P.get(key)
+    env = {}
+    params = list(fi.params)
+    for p in params:
+        v = SV("val", ex.heap_get(st, gen_ghost(kind, p))[g.t], None)
+        if p == "self":
+            env[p] = ex.from_val(v.t, Ty("obj", classes=[fi.cls]))
+        elif p in c.types:
+            env[p] = retype(ex, st, v, T(c.types[p]))
+            st.assume(z3.simplify(ex.type_pred(T(c.types[p]), env[p].t if env[p].k != "val" else env[p].t, st)))
+        else:
+            env[p] = v
+    gp = ex.heap_get(st, "gen_pos")
+    k = gp[g.t]
+    ex.oblige(st, "def", "generator-position-non-negative", node, k >= 0)
+    st.assume(k >= 0)
+    # the generator's preconditions held when it was created; lists it reads are assumed not to have been emptied since
+    for lab, text in c.requires:
+        st.assume(spec_eval(ex, st, env, text))
+    ex.assumed_used.add(f"the arguments of a {kind} generator still satisfy {c.target}'s precondition when it is resumed")
+    lam = ast.parse(c.yields.strip(), mode="eval").body
+    e2 = dict(env)
+    e2[lam.args.args[0].arg] = SV("int", k, T("int"))
+    val = spec_eval_value(ex, st, e2, ast.unparse(lam.body))
+    ex.heap_set(st, "gen_pos", z3.Store(gp, g.t, k + 1))
+    return [(st, val)]
 
 
 def inline_call(ex, st, fi, env, node):
@@ -667,6 +727,8 @@ def apply_contract(ex, st, fi, c, env, node):
                     lab, text = item if isinstance(item, tuple) else (f"at-call-{key}", item)
                     e2 = dict(ex.entry_env)
                     e2.update({k: v for k, v in ex.unit_env_view(st).items()})
+                    # the actual arguments of this call are visible as arg_<parameter name>
+                    e2.update({"arg_" + k: v for k, v in env.items() if k != "self"})
                     for _try in range(6):
                         try:
                             g = spec_eval(ex, st, e2, text, old=ex.entry_old)
@@ -678,6 +740,7 @@ def apply_contract(ex, st, fi, c, env, node):
                             nm = u.msg.split("unknown name in spec: ")[1].split()[0]
                             e2[nm] = SV("val", fresh("undef_" + nm, Val), None)
                     ex.oblige(st, "at-call", f"{lab}", node, g)
+                    st.assume(g)        # assert-then-assume: a checkpoint is available as a lemma to what follows
     # parameter typing from the contract
     for p, tys in c.types.items():
         if p in env:
@@ -756,10 +819,11 @@ def apply_contract(ex, st, fi, c, env, node):
                 st.assume(ex.to_val(result) == prev[0])
         else:
             memo[key] = (ex.to_val(result), ex.seq_of(result, st) if (result.k == "ref" and result.h is not None and result.h.kind == "list") else None)
-    if cur is not None and not ex.call_stack:
+    if cur is not None:
         for key in (c.target, fi.name):
             for text in cur.lemma_after.get(key, []):
-                e2 = dict(ex.unit_env_view(st))
+                # inside an inlined helper the clause sees the unit's parameters (as bound at entry)
+                e2 = dict(ex.unit_env_view(st)) if not ex.call_stack else dict(ex.entry_env)
                 try:
                     g = spec_eval(ex, st, e2, text, old=ex.entry_old, result=result)
                 except Unsupported as u:
